@@ -3405,7 +3405,12 @@ func (d *cborDecDriverBytes) decUint() (ui uint64) {
 }
 
 func (d *cborDecDriverBytes) decLen() int {
-	return int(d.decUint())
+	ui := d.decUint()
+	if ui > math.MaxInt {
+
+		halt.errorUint("length overflows int: ", ui)
+	}
+	return int(ui)
 }
 
 func (d *cborDecDriverBytes) decFloat() (f float64, ok bool) {
@@ -7387,7 +7392,12 @@ func (d *cborDecDriverIO) decUint() (ui uint64) {
 }
 
 func (d *cborDecDriverIO) decLen() int {
-	return int(d.decUint())
+	ui := d.decUint()
+	if ui > math.MaxInt {
+
+		halt.errorUint("length overflows int: ", ui)
+	}
+	return int(ui)
 }
 
 func (d *cborDecDriverIO) decFloat() (f float64, ok bool) {
